@@ -12,6 +12,7 @@ import (
 	"io"
 	"os"
 	"path/filepath"
+	stdruntime "runtime"
 	"runtime/debug"
 	"sort"
 	"strconv"
@@ -564,4 +565,27 @@ func mustJSON(b []byte, v any) {
 	if err := json.Unmarshal(b, v); err != nil {
 		panic("bad json: " + err.Error())
 	}
+}
+
+// blockedStacks: the stacks of the goroutines that are inside tile38 server code
+// (for deadlock / no-reply reports).
+func blockedStacks() string {
+	buf := make([]byte, 4<<20)
+	buf = buf[:stdruntime.Stack(buf, true)]
+	var sb strings.Builder
+	for _, g := range strings.Split(string(buf), "\n\n") {
+		if !strings.Contains(g, "internal/server.") || strings.Contains(g, "blockedStacks") {
+			continue
+		}
+		var keep []string
+		for _, l := range strings.Split(g, "\n") {
+			if strings.HasPrefix(l, "goroutine ") || (strings.Contains(l, "tile38/internal/") && !strings.Contains(l, "vshim/vsched.") && !strings.HasPrefix(l, "\t")) {
+				keep = append(keep, strings.TrimSpace(l))
+			} else if strings.HasPrefix(l, "\t") && strings.Contains(l, "/repo/internal/server/") && !strings.Contains(l, "zz_verif") {
+				keep = append(keep, "    "+strings.TrimSpace(l))
+			}
+		}
+		sb.WriteString("\n" + strings.Join(keep, "\n"))
+	}
+	return sb.String()
 }
